@@ -445,6 +445,28 @@ class _Idioms(ast.NodeTransformer):
     np.f(x, **kw) -> x.f(**kw) for reductions; dict()/list()/tuple() -> literals; x.shape[0] -> len(x);
     `not a in b` -> `a not in b`, `not a is b` -> `a is not b`; int/float literal forms; +x -> x; (a) parentheses vanish anyway"""
 
+    def _flatten_display(self, n):
+        "`[a, *[b, *c, d], e]` -> `[a, b, *c, d, e]`: a starred list / tuple display inside a display contributes its own elements"
+        self.generic_visit(n)
+        while any(isinstance(e, ast.Starred) and isinstance(e.value, (ast.List, ast.Tuple)) for e in n.elts):
+            flat = []
+            for e in n.elts:
+                if isinstance(e, ast.Starred) and isinstance(e.value, (ast.List, ast.Tuple)):
+                    flat.extend(e.value.elts)
+                else:
+                    flat.append(e)
+            n.elts = flat
+        return n
+
+    def visit_List(self, n: ast.List):
+        return self._flatten_display(n) if isinstance(n.ctx, ast.Load) else self.generic_visit(n)
+
+    def visit_Tuple(self, n: ast.Tuple):
+        return self._flatten_display(n) if isinstance(n.ctx, ast.Load) else self.generic_visit(n)
+
+    def visit_Set(self, n: ast.Set):
+        return self._flatten_display(n)
+
     def visit_Call(self, n: ast.Call):
         self.generic_visit(n)
         if any(isinstance(a, ast.Starred) and isinstance(a.value, (ast.Tuple, ast.List)) for a in n.args):
